@@ -84,6 +84,10 @@ func (c *c13Oracle) Check(w *World, o *Obs) []Violation {
 			out = append(out, viol("C13", "authorisation_without_mailed_token", st.Kind, o,
 				fmt.Sprintf("session of browser %d obtained the e-mail authorisation mark without presenting the token mailed for it (%s)", st.B, why), "why", why))
 			c.authedOK[st.B] = 0
+			if why == "token_mailed_to_other_account" {
+				// the mark now in the session belongs to the other account
+				c.authedOK[st.B] = tok.Known.Acct + 1
+			}
 		}
 	}
 	// with e-mail authorisation required, the enrolment routes must not be
